@@ -14,6 +14,9 @@
  *   R name nt ncomp xdim ydim n v..    GR image, pixel interlace, n = xdim*ydim*ncomp
  *   V name nrec nf (fname nt order)*nf n v..   Vdata, full interlace, n = nrec*sum(order)
  *   E name                             empty Vgroup
+ *   N name nrec nf ...                 like V, stored with NO_INTERLACE (VSsetinterlace)
+ *   T owner findex name nt n v..       attribute of the Vdata `owner` (findex -1) / of its field findex (>= 0), set with
+ *                                      VSsetattr, or of the Vgroup `owner` (findex -2), set with Vsetattr
  *   D il xdim ydim n v..               24-bit raster added with DF24setil(il) + DF24addimage (v: pixel-major logical values,
  *                                      n = xdim*ydim*3); B xdim ydim n v.. 8-bit raster added with DFR8addimage.  Both get
  *                                      their refs from Htagnewref and are named "Raster Image #k" by the GR interface
@@ -161,7 +164,29 @@ static int do_mk(const char *desc, const char *out)
             CK(GRendaccess(ri));
             free(b);
         }
-        else if (!strcmp(tok[0], "V")) {
+        else if (!strcmp(tok[0], "T")) {
+            int findex = atoi(tok[2]);
+            int32 nt = atoi(tok[4]), n = atoi(tok[5]);
+            unsigned char *b = vals(nt, 6, n);
+            if (findex == -2) {
+                int32 ref = Vfind(fid, tok[1]);
+                CK(ref > 0 ? ref : FAIL);
+                int32 vg = Vattach(fid, ref, "w");
+                CK(vg);
+                CK(Vsetattr(vg, tok[3], nt, n, b));
+                CK(Vdetach(vg));
+            }
+            else {
+                int32 ref = VSfind(fid, tok[1]);
+                CK(ref > 0 ? ref : FAIL);
+                int32 vs = VSattach(fid, ref, "w");
+                CK(vs);
+                CK(VSsetattr(vs, findex, tok[3], nt, n, b));
+                CK(VSdetach(vs));
+            }
+            free(b);
+        }
+        else if (!strcmp(tok[0], "V") || !strcmp(tok[0], "N")) {
             int nrec = atoi(tok[2]), nf = atoi(tok[3]);
             int32 vs = VSattach(fid, -1, "w");
             CK(vs);
@@ -176,6 +201,7 @@ static int do_mk(const char *desc, const char *out)
                 recsz += ntsize(nt) * ord; nper += ord;
             }
             CK(VSsetfields(vs, fields));
+            if (tok[0][0] == 'N') CK(VSsetinterlace(vs, NO_INTERLACE));
             int base = 4 + 3 * nf; /* tok[base] = n */
             unsigned char *b = (unsigned char *)calloc((size_t)(nrec > 0 ? nrec : 1), (size_t)recsz);
             unsigned char *p = b;
@@ -346,7 +372,7 @@ static int do_rd(const char *desc, const char *file)
             GRendaccess(ri);
             free(b);
         }
-        else if (!strcmp(tok[0], "V") || !strcmp(tok[0], "W")) {
+        else if (!strcmp(tok[0], "V") || !strcmp(tok[0], "W") || !strcmp(tok[0], "N")) {
             int32 ref = VSfind(fid, tok[1]);
             if (ref <= 0) { printf("V %s missing\n", tok[1]); continue; }
             int32 vs = VSattach(fid, ref, "r");
